@@ -111,7 +111,9 @@ def gen_client(rng, j, libs):
 def generate(rng, tier):
     if rng.random() < 0.12:
         return {"kind": "ext", "exts": rng.sample([".hy", "", ".txt", ".hyx", ".py", ".data", ".PY", ".Py", ".hY", ".py3", ".pyx"], 5),
-                "opt": rng.choice([0, 0, 1, 2]), "val": rng.randrange(1000)}
+                "opt": rng.choice([0, 0, 1, 2]), "val": rng.randrange(1000),
+                # configuration: a Python source suffix registered after hy was imported
+                "extra_suffix": rng.choice([None, None, ".pyw", ".pyi"])}
     if rng.random() < 0.14:
         return gen_pkg(rng)
     libs = [gen_lib(rng, i) for i in range(rng.choice([1, 1, 2]))]
@@ -818,9 +820,15 @@ def execute_ext(desc):
     hy_text = f'(setv hy-only {val})\n(defmacro em [] {val + 1})\n(setv viamacro (em))\n(setv dbg __debug__)\n(assert (= hy-only {val}))\n'
     py_text = f'py_only = {val}\ndbg = __debug__\n'
     sys.dont_write_bytecode = True
+    import importlib.machinery as _mach
+    extra = desc.get("extra_suffix")
+    exts = list(desc["exts"])
+    if extra:
+        _mach.SOURCE_SUFFIXES.append(extra)
+        exts.append(extra)
     try:
-        for ei, ext in enumerate(desc["exts"]):
-            is_hy = ext != ".py"
+        for ei, ext in enumerate(exts):
+            is_hy = ext != ".py" and ext != extra
             for lang, text in (("hy", hy_text), ("py", py_text)):
                 name = f"{tag}{lang}{ei}"
                 p = W.write(name, text, ext=ext)
@@ -887,12 +895,14 @@ def execute_ext(desc):
                     viols.append({"clause": "extension_rule", "sig": f"run_path:{ext or 'none'}:{lang}",
                                   "detail": {"ext": ext, "text_language": lang, "got": repr(g3), "expected": repr(w3) if w3 else "an error"}})
     finally:
+        if extra and extra in _mach.SOURCE_SUFFIXES:
+            _mach.SOURCE_SUFFIXES.remove(extra)
         W.close()
     uniq = {}
     for v in viols:
         uniq.setdefault((v["clause"], v["sig"]), v)
     return {"events": events, "violations": list(uniq.values())[:5], "faults": {}, "probes": probes,
-            "sigs": [kernel.digest(["ext", desc["exts"], desc["opt"]])], "steps": len(desc["exts"])}
+            "sigs": [kernel.digest(["ext", desc["exts"], desc["opt"], extra])], "steps": len(desc["exts"])}
 
 
 # ------------------------------------------------------------------ shrinking
